@@ -671,4 +671,5 @@ func generate() {
 	apiCases(g.Fork())    // BaseMultiply / BaseMultiplyAdd / Multiply / ParsePubkey on byte strings (api.go)
 	histCases(g.Fork())   // histories of calls on one file of objects: operands and registers re-used (history.go)
 	concStreams(g.Fork()) // several callers at once, nothing shared (concurrent.go)
+	exceptionalCases(g.Fork()) // ECmult on related operands: running sum ∞ / = addend / = −addend inside the loop (cancel.go)
 }
